@@ -328,6 +328,23 @@ def main(argv):
                             bad.append(nme)
                 if bad:
                     problems.append(("P", "property theorems depend on axioms: " + ", ".join(sorted(set(bad))), aout[-4000:]))
+    # independent re-check of the compiled property file and everything it depends on (thorough tier)
+    if tier == "thorough" and not any(p[0] == "P" for p in problems):
+        with Lock("build.lock"):
+            rc, cout, cdt = sh(["coqchk", "-silent", "-o", "-Q", COQ, "Dec", "Dec.props." + pid], cwd=COQ, timeout=3000)
+        summ = cout[cout.find("CONTEXT SUMMARY"):] if "CONTEXT SUMMARY" in cout else cout[-1500:]
+        cov["coqchk"] = {"ran": True, "seconds": round(cdt, 1), "exit": rc, "summary": [l.strip() for l in summ.splitlines() if l.strip()][:30]}
+        if rc != 0:
+            problems.append(("P", "coqchk rejects the compiled development", cout[-4000:]))
+        else:
+            m = re.search(r"\* Axioms:\s*(.*?)\n\s*\n\s*\*", summ, re.S)
+            ax = m.group(1).strip() if m else "?"
+            if ax != "<none>":
+                problems.append(("P", "coqchk reports axioms in the closure of the property file: " + ax[:500], summ[:4000]))
+            for what in ("type-in-type", "unsafe (co)fixpoints", "positivity is assumed"):
+                mm = re.search(re.escape(what) + r":\s*(.*?)\n", summ)
+                if mm and mm.group(1).strip() != "<none>":
+                    problems.append(("P", "coqchk: " + what + ": " + mm.group(1).strip()[:300], summ[:4000]))
     nobl, names = count_obligations([f for f in closure if not f.startswith("generated")] + [])
     cov["obligations"] = nobl
     cov["discharged"] = nobl if not any(p[0] == "P" for p in problems) else 0
